@@ -272,7 +272,8 @@ def replay(ctx, body):
 
 LEVEL_TEXT = ('Machine-checked proof (Coq, closed under the global context). (a) Model of SixelParser (every state, raster header, repeat, '
               'colour definition incl. overflow panics, ragged row growth) and theorem sixel_rect: every successfully decoded image holds exactly '
-              '4*width*height bytes, for every payload of any length; a declared raster height is kept whatever data follows. (b) Transition-system model of '
+              '4*width*height bytes, for every payload of any length; a declared raster height is kept whatever data follows; after the size-limit fix width and height are at most '
+              'MAX_SIXEL_DIMENSION = 4096 (sixel_dims_bounded; the constant is read from the source). (b) Transition-system model of '
               'the decode queue (execute_dcs push_back, update_sixel_threads) and theorems over EVERY sequence of arrivals, completions in any order and polls: '
               'poll never joins an unfinished decode, popped++queued = arrivals (no loss, no duplicate, arrival order), screen = arrival-order spec, '
               'final screen independent of the schedule, shadow removal exact. Partial only in that real OS-thread timing is exhibited just for the gated schedules '
